@@ -53,8 +53,12 @@ def run(res, proofs_ok, proofs_why, only=None):
         res.count(("even_start" if g % 2 == 0 else "odd_start") if v == 0 else ("variant:%s" % {1: "only the status differs", 2: "same record again", 3: "after a restart of the daemon"}[v]))
         if g in (0, 1, 2, 65533, 65534, 65535):
             res.count("boundary")
-        gi, mid, post = (int(x) for x in i.split())
+        f = [int(x) for x in i.split()]
+        gi, mid, post = f[:3]
         why = predicate(gi, mid, post)
+        if len(f) > 3 and f[3] != gi:
+            why.append("a daemon that starts over the segment changed the generation from %d to %d before publishing anything" % (gi, f[3]))
+        i = " ".join(str(x) for x in f[:3])
         if why:
             bad_inputs.append({"start": g, "variant": v, "during_copy": mid, "after": post, "why": why, "model": m})
         if i != m:
@@ -81,6 +85,6 @@ def replay(res, path):
     # variants 1 and 2 refer to the record published just before: publish one first
     line = (["gen %d" % ((g + 2) % 65536)] if v in (1, 2) else []) + ["gen %d %d" % (g, v)]
     i, m = c.run_lines(binary, line)[-1], c.run_model(["gen %d" % g])[0]
-    gi, mid, post = (int(x) for x in i.split())
+    gi, mid, post = (int(x) for x in i.split()[:3])
     print("case gen %d\nimpl  %s\nmodel %s\npredicate: %s" % (g, i, m, predicate(gi, mid, post) or "holds"))
     return 1 if predicate(gi, mid, post) else 0
